@@ -228,4 +228,18 @@ PROPS.update({
                         "the split regex (.+)/(.+) as specified; pyro_app's routing (method, /pyro/ prefix) and singlyfy_parameters are covered by the native harness only",
                         "fidelity of JSON and of the remote call itself (C01/C03)"],
     },
+    "C14": {
+        "modules": ["specs.socket_model", "specs.seqdict", "specs.opaque", "specs.storage_model", "contracts.nameserver_locks", "contracts.nameserver_map"],
+        "contracts": ["Pyro5.nameserver.NameServer.count#map", "Pyro5.nameserver.NameServer.lookup#map", "Pyro5.nameserver.NameServer.register#map",
+                      "Pyro5.nameserver.NameServer.set_metadata#map", "Pyro5.nameserver.NameServer.remove#map"],
+        "harness": "replay/c14.py",
+        "explanation": "count, lookup, register (safe and unsafe), set_metadata and remove-by-name proved against the abstract map sigma = (names, uri, tag set) behind "
+                       "the storage interface Sigma: exact result, exactly the named entry changes, every other name untouched, count follows, a refused or failing operation "
+                       "changes nothing, a safe registration of an existing name never succeeds, the name server's own entry is never removed, names compare literally "
+                       "(string equality).  Back-end equivalence and persistence are NOT decided deductively: list / yplookup / remove by prefix or regex, MemoryStorage "
+                       "and SqlStorage against Sigma (SQL statements), reopen and statement-failure atomicity are covered by the bounded differential harness.",
+        "assumptions": ["the storage object obeys Sigma (specs/storage_model.py); both back-ends refining it is checked only by differential testing against a reference map "
+                        "(60 seeded histories quick / 600 thorough, wildcard, case, regex and unicode names; reopen; every sqlite statement as failure point)",
+                        "URI text validity is an uninterpreted predicate here (C19)"],
+    },
 })
